@@ -527,7 +527,11 @@ func c19RandomOp(c *Ctx, u c19Uni, withFiltered bool) c19Op {
 		return c19Op{Kind: "clear"}
 	case x < 98:
 		// a policy type the model does not define: every call fails without touching memory
-		return c19Op{Kind: []string{"add", "remove", "update"}[c.Rng.Intn(3)], Pt: "p9", R1: [][]string{{"a", "b"}}, R2: [][]string{{"c", "d"}}}
+		o := c19Op{Kind: []string{"add", "remove", "update"}[c.Rng.Intn(3)], Pt: "p9", R1: [][]string{{"a", "b"}}, R2: [][]string{{"c", "d"}}}
+		if o.Kind != "update" && c.Rng.Intn(3) == 0 {
+			o.R1 = [][]string{} // AddPoliciesSelf reaches the adapter before it fails only for an empty batch
+		}
+		return o
 	default:
 		return c19Op{Kind: "removefiltered", Pt: pt, Fi: 0, Fvs: []string{}}
 	}
